@@ -60,6 +60,14 @@ def run(rep, tier, rng):
                             ("power", al, tuple(v), e), nontrivial=any(v),
                             sample={"op": "binding_power", "alg": al, "v": v, "exponent": e, "observed": c.obs_json(o)} if d == 4 and e == 3 else None)
                         if d <= 9 and abs(e) <= 3:
+                            # the exponent given as NumPy integer / integral float / NumPy float
+                            for ename, ev in (("np.int64", np.int64(e)), ("float", float(e)), ("np.float64", np.float64(e))):
+                                oe = c.observe(lambda: A.binding_power(vf, ev))
+                                if oe[0] == "ValueError" and ename != "np.int64" and e < 0 and al != "AHrr":
+                                    continue      # VTB / TVTB refuse non-integer *types* for negative exponents only through the sign gate: not claimed
+                                add(f"check_power {al} {c.zlist(v)} {c.b(e < 0)} {c.nat(abs(e))} {tol} {obs_t(oe)}",
+                                    {"op": "power-exponent-" + ename, "alg": al, "v": v, "e": e, "obs": c.obs_json(oe), "py": f"A.binding_power(v, {ename}({e}))"},
+                                    ("power-exp", ename, al, tuple(v), e), nontrivial=any(v))
                             oi = c.observe(lambda: A.binding_power(np.array(v, dtype=int), e))     # integer-typed array
                             add(f"check_power {al} {c.zlist(v)} {c.b(e < 0)} {c.nat(abs(e))} {tol} {obs_t(oi)}",
                                 {"op": "power-int-dtype", "alg": al, "v": v, "e": e, "obs": c.obs_json(oi), "py": f"A.binding_power(np.array(v, dtype=int), {e})"},
